@@ -74,3 +74,39 @@ func Harness_C03_tuple_edges() { c03Run(verifIntIn("edges", 1, 2)) }
 
 // Harness_C03_tuple_edges_3_T: three edges (thorough).
 func Harness_C03_tuple_edges_3_T() { c03Run(3) }
+
+// Harness_C03_trace_shape: a reported trace is the chain of visited nodes from the origin back to the
+// backtrace-point argument (it ends at the entry node), and identical traces are reported once.
+func Harness_C03_trace_shape() {
+	w := df.VerifNewEdgeWorld(3)
+	universe := []df.GraphNode{w.Dst, w.Src, w.Rets[0], w.Rets[1], w.Rets[2]}
+	n := verifPick("trace-length", 1, 4)
+	var cur *df.VisitorNode
+	var seq []df.GraphNode
+	for i := 0; i < n; i++ {
+		node := universe[0]
+		if i > 0 {
+			node = universe[verifPick("node", 1, len(universe)-1)]
+		}
+		cur = &df.VisitorNode{NodeWithTrace: df.NodeWithTrace{Node: node}, Prev: cur, Depth: i}
+		seq = append(seq, node)
+	}
+	tr := findTrace(w.State, cur)
+	verifReach("trace-found")
+	verifAssert("trace-has-one-entry-per-visited-node", len(tr) == n)
+	if len(tr) == n {
+		verifAssert("trace-ends-at-the-backtrace-point-argument", tr[n-1].GraphNode == df.GraphNode(w.Dst))
+		verifAssert("trace-starts-at-the-origin", tr[0].GraphNode == seq[n-1])
+		for i := 0; i < n; i++ {
+			verifAssert("trace-is-the-visit-chain-reversed", tr[i].GraphNode == seq[n-1-i])
+		}
+	}
+	v := &Visitor{Traces: map[df.GraphNode][]Trace{}}
+	addTrace(v, w.Dst, tr)
+	addTrace(v, w.Dst, findTrace(w.State, cur))
+	verifAssert("identical-trace-reported-once", len(v.Traces[w.Dst]) == 1)
+	if n > 1 {
+		addTrace(v, w.Dst, findTrace(w.State, cur.Prev))
+		verifAssert("different-trace-is-kept", len(v.Traces[w.Dst]) == 2)
+	}
+}
